@@ -18,6 +18,9 @@ def run(ctx):
     if ctx['tier'] == 'thorough':
         _g.corpus_generated(rep, 'G08.h', split=True)
     gen_thrift.tolerant_reader(rep)
+    # "missing optional fields are left empty or at their IDL default": the literals the decoders fill in for absent fields
+    # are the IDL defaults (same rule as C20, here for the decoders' sake)
+    gen_thrift.defaults(rep, pre='G08.f')
     if ctx['tier'] == 'thorough':
         gen_thrift.tolerant_reader(rep, split=True)   # same rules on the split-file output
     # "ignore what you do not know" is done by the runtime skippers: they handle the same wire types, pair struct
@@ -32,6 +35,9 @@ def run(ctx):
     skippers.struct_pairing(rep, 'R08.s', prog)
     skippers.binary_arm_reader_accepts_any_bytes(rep, 'R08.s', prog, cg)
     unsafe_codec.skipper_tables(rep, 'R08.s', prog, cg)
+    # with retention on, the unchecked reader moves past an unknown field by the sum of its own *_len values
+    import c11
+    c11.len_passes_agree(rep, 'R08.l', prog, cg)
     rep.programs = 14
     rep.disagreements_checked = rep.obligations
     rep.floor('G08.a', 300)
